@@ -47,6 +47,8 @@ CONFIGS = {
     'target': dict(cols=['a', 'b', 'c'], over=dict(target_ranking_only='True', minibatch_size=8, subsampling=1, heuristic='MI-numba-randomized')),
     'pairwise': dict(cols=['a', 'b', 'c'], over=dict(target_ranking_only='False', minibatch_size=8, subsampling=1, heuristic='MI-numba-randomized')),
     'ratio': dict(cols=['a', 'b', 'c'], over=dict(target_ranking_only='True', minibatch_size=8, subsampling=1, heuristic='MI-numba-randomized', mi_stratified_sampling_ratio=0.5)),
+    # scaled instance: the size constant of the coverage heuristic is set to 8 for this configuration, so that any size-triggered path is taken by 8-row batches
+    'coverage_scaled': dict(cols=['a', 'b', 'c'], over=dict(target_ranking_only='False', minibatch_size=8, subsampling=1, heuristic='max-value-coverage'), max_size=8),
     'noise': dict(cols=['a', 'b'], over=dict(target_ranking_only='True', minibatch_size=8, subsampling=1, heuristic='MI-numba-randomized', include_noise_baseline_features='True')),
 }
 
@@ -65,6 +67,10 @@ def run_schedule(cfg, W, sched, completion='fifo', pending=0):
     pool = vpool.VirtualPool(W, sched, completion, pending)
     over = dict(c['over'])
     over['include_cardinality_in_feature_names'] = 'False'
+    from outrank.algorithms.feature_ranking import ranking_cov_alignment as rca
+    old_max = rca.max_size
+    if c.get('max_size'):
+        rca.max_size = c['max_size']
     old_time = cr.time
     if pending:
         # the result is reported "not ready" for a few polls; the 4-second sleep between polls is skipped (time is a seam)
@@ -73,6 +79,7 @@ def run_schedule(cfg, W, sched, completion='fifo', pending=0):
         obs = pipeline.run_task(data_text(16, c['cols']), over, pool=pool)
     finally:
         cr.time = old_time
+        rca.max_size = old_max
     return observe(obs), pool.k, pool.log
 
 
@@ -159,6 +166,7 @@ CLI_CONFIGS = {
     'multivalue': ('plain', ['--data_source', 'csv-raw', '--feature_set_focus', 'm,a', '--explode_multivalue_features', 'm', '--target_ranking_only', 'False', '--heuristic', 'MI-numba-randomized']),
     'transformers': ('transformers', ['--data_source', 'ob-csv', '--transformers', 'minimal', '--target_ranking_only', 'False', '--heuristic', 'MI-numba-randomized']),
     'ratio': ('plain', ['--data_source', 'csv-raw', '--target_ranking_only', 'False', '--heuristic', 'MI-numba-randomized', '--mi_stratified_sampling_ratio', '0.6']),
+    'subfeature_interactions': ('plain', ['--data_source', 'csv-raw', '--subfeature_mapping', 'a->b;c<->a', '--interaction_order', '2', '--feature_set_focus', 'a,b,c', '--target_ranking_only', 'True', '--heuristic', 'MI-numba-randomized']),
     'interactions_pearson': ('plain', ['--data_source', 'csv-raw', '--interaction_order', '2', '--target_ranking_only', 'True', '--heuristic', 'correlation-Pearson']),
     'capped': ('plain', ['--data_source', 'csv-raw', '--target_ranking_only', 'False', '--heuristic', 'MI-numba-randomized', '--combination_number_upper_bound', '4', '--minibatch_size', '10']),
     'subfeature_noise': ('plain', ['--data_source', 'csv-raw', '--subfeature_mapping', 'a->b', '--include_noise_baseline_features', 'True', '--target_ranking_only', 'True', '--heuristic', 'MI']),
@@ -211,7 +219,7 @@ def run(ctx):
     jobs = []
     plan = []
     limit = 20000 if ctx.thorough else 1500
-    for cfg in ('target', 'ratio', 'noise', 'pairwise'):
+    for cfg in ('target', 'ratio', 'coverage_scaled', 'noise', 'pairwise'):
         for W in (1, 2, 3):
             res0 = base_or_violation(ctx, cfg, W)
             if res0 is None:
@@ -258,7 +266,7 @@ def run(ctx):
     ctx.stats.sample({'kind': 'schedule', 'config': 'target', 'W': 3, 'schedule': [0, 1, 2, 0, 1, 1, 2, 0]})
     ctx.stats.sample({'kind': 'cli', 'config': 'focus', 'seed': 1, 'threads': 2, 'ref_seed': 0, 'ref_threads': 1})
     ctx.extra['virtual_pool_plan'] = [{'config': c, 'W': w, 'chunks': k, 'schedules': n, 'mode': m} for c, w, k, n, m in plan]
-    for cfg in ('target', 'ratio', 'pairwise', 'noise'):
+    for cfg in ('target', 'ratio', 'coverage_scaled', 'pairwise', 'noise'):
         if len(ctx.stats.sets['outcomes_' + cfg]) > 1 and not ctx.stats.violations:
             raise HarnessError('outcome count > 1 without violation')
 
